@@ -89,6 +89,9 @@ func (d *DocGen) Valid(schemaNode any, depth int) any {
 	}
 	switch oas.Kind(s) {
 	case "string":
+		if f, _ := s["format"].(string); f == "date" {
+			return fmt.Sprintf("%04d-%02d-%02d", 1+d.Rng.Intn(9999), 1+d.Rng.Intn(12), 1+d.Rng.Intn(28))
+		}
 		return boundaryStrings[d.Rng.Intn(len(boundaryStrings))]
 	case "date-time":
 		return []string{"2020-01-02T03:04:05Z", "2020-01-02T03:04:05.123+02:00", "1999-12-31T23:59:59-11:30", "2024-02-29T00:00:00.000000001Z"}[d.Rng.Intn(4)]
@@ -384,3 +387,61 @@ func (d *DocGen) Faults(doc any, schemaNode any) []struct {
 }
 
 var _ = time.Now
+
+// Unions builds, for every oneOf without discriminator reachable from the
+// schema through object properties, a document in which that position holds
+// the union of all alternatives' properties (accepted by several of them).
+func (d *DocGen) Unions(schemaNode any) []any {
+	var out []any
+	var build func(node any, depth int, at func(v any) any)
+	build = func(node any, depth int, at func(v any) any) {
+		s := d.Doc.Schema(node)
+		if s == nil || depth > 4 {
+			return
+		}
+		if members, ok := s["oneOf"].([]any); ok {
+			if _, disc := s["discriminator"]; disc {
+				return
+			}
+			u := &jobj{vals: map[string]any{}}
+			for _, m := range members {
+				ms := d.Doc.Schema(m)
+				if ms == nil || (oas.Kind(ms) != "object" && oas.Kind(ms) != "allOf") {
+					return
+				}
+				ov, err := d.Doc.ObjectView(ms)
+				if err != nil {
+					return
+				}
+				for _, k := range ov.Order {
+					if _, dup := u.vals[k]; !dup && ov.Required[k] {
+						u.set(k, d.Valid(ov.Props[k], depth+1))
+					}
+				}
+			}
+			out = append(out, at(u))
+			return
+		}
+		k := oas.Kind(s)
+		if k != "object" && k != "allOf" {
+			return
+		}
+		ov, err := d.Doc.ObjectView(s)
+		if err != nil {
+			return
+		}
+		for _, pn := range ov.Order {
+			pn := pn
+			build(ov.Props[pn], depth+1, func(v any) any {
+				doc, ok := d.Valid(node, depth).(*jobj)
+				if !ok || doc == nil {
+					doc = &jobj{vals: map[string]any{}}
+				}
+				doc.set(pn, v)
+				return at(doc)
+			})
+		}
+	}
+	build(schemaNode, 0, func(v any) any { return v })
+	return out
+}
